@@ -161,11 +161,11 @@ MUTANTS = [
     Mutant("master stays locked while tags are removed", UC, "                    unlockable.remove(master)\n                    master.unlock()\n", "                    pass\n", expect="R5-master-unlocked-for-tags"),
     Mutant("uncommit reverts the tree", UC, "            if tree is not None:\n                parents.extend(reversed(pending_merges))\n                tree.set_parent_ids(parents)\n", "            if tree is not None:\n                parents.extend(reversed(pending_merges))\n                tree.set_parent_ids(parents)\n                tree.revert()\n", expect="R1-tree-effects"),
     Mutant("master/local order swapped", UC, "            if master is not None:\n                master.set_last_revision_info(new_revno, new_revision_id)\n            branch.set_last_revision_info(new_revno, new_revision_id)\n", "            branch.set_last_revision_info(new_revno, new_revision_id)\n            if master is not None:\n                master.set_last_revision_info(new_revno, new_revision_id)\n", expect="R2-master-first"),
-    Mutant("tags removed during a dry run", UC, "            if branch.supports_tags() and not keep_tags:\n                remove_tags(branch, graph, old_tip, parents)\n    finally:", "        if branch.supports_tags() and not keep_tags:\n            remove_tags(branch, graph, old_tip, parents)\n    finally:", expect="ANALYSIS-ERROR", note="parents undefined on dry-run path: still parses; rule fires as violation"),
+    Mutant("tags removed during a dry run", UC, "                    master.unlock()\n                remove_tags(branch, graph, old_tip, parents)\n    finally:", "                    master.unlock()\n        if branch.supports_tags() and not keep_tags:\n            remove_tags(branch, graph, old_tip, parents)\n    finally:", expect="ANALYSIS-ERROR", note="parents undefined on dry-run path: still parses; rule fires as violation"),
     Mutant("keep_tags ignored", UC, "            if branch.supports_tags() and not keep_tags:", "            if branch.supports_tags():", expect="R4-keep-tags"),
     Mutant("pending merges order broken", UC, "            pending_merges.extend(reversed(parents[1:]))", "            pending_merges.extend(parents[1:])", expect="R3-pending-merges"),
     Mutant("rust: delete before the guard", RS, "        if !ancestors.contains(&revid) {\n            continue;\n        }\n        for tag in revid_tags {", "        for tag in revid_tags {", expect="R4-rust-guard"),
     Mutant("rust: ancestors of the new tip", RS, "graph.find_unique_ancestors(old_tip, parents)", "graph.find_unique_ancestors(parents[0].clone(), &[old_tip])", expect="R4-rust-ancestors"),
     Mutant("neutral: read-only query added", UC, "        old_revno, old_tip = branch.last_revision_info()\n", "        old_revno, old_tip = branch.last_revision_info()\n        branch.get_parent()\n", neutral=True),
 ]
-MUTANTS[2].expect = ["R2-dry-run"]
+next(m for m in MUTANTS if m.name == "tags removed during a dry run").expect = ["R2-dry-run"]
